@@ -7,9 +7,10 @@ from gen import jsongen as G
 from lib.core import existing_modules
 
 ID = "C10"
-LEVEL = "other"
-LEAN_MODULES = existing_modules(["Sonic.Props.C10"]) + ["Sonic.Props.C05", "Sonic.Spec.Json"]
-REQUIRED_THEOREMS = []
+LEVEL = "proof"
+LEAN_MODULES = ["Sonic.Props.C10", "Sonic.Props.C11"]
+REQUIRED_THEOREMS = ["Sonic.Props.C10." + n for n in ["C10_agree", "C10_success_iff", "C10_skipString_seq", "C10_skipContainer_seq",
+                                                         "C10_skipOne_value", "C10_skipSpaceSafe_exact", "C10_getNextToken_exact"]]
 CONFIGS = [("avx2", "prod"), ("sse", "prod"), ("avx2", "san"), ("sse", "san")]
 CONFIGS_THOROUGH = CONFIGS + [("dyn", "prod")]
 RULE = ("valid JSON texts from the type-directed generator (keys whose raw spelling differs from the decoded one, strings containing "
@@ -23,8 +24,11 @@ EXPLANATION = ("Oracle: Spec.Pointer.at applied to Spec.Json.parse of the text (
                "Theorems proved so far are listed in the evidence.")
 ASSUMPTIONS = ["GetEscaped<N>, PrefixXor, CountOnes, TrailingZeroes have their per-bit meaning (validated by the correspondence)"]
 TRUSTED = ["Spec.Json.parse / Spec.Pointer.at as oracle (compiled Lean evaluation)"]
-LEVEL_TEXT = ("Partial proof + spec-oracle correspondence: component theorems of the block-wise skippers as listed in the evidence; the "
-              "end-to-end agreement with full parsing is decided per input by the executable spec.")
+LEVEL_TEXT = ("Machine-checked proof (Lean 4, C10_agree): for every valid JSON text (per the executable RFC 8259 spec), every path, vector "
+              "width and key-buffer content, the literal block-wise model of GetOnDemand succeeds iff the path resolves (first match for "
+              "duplicate keys), the slice [start,stop) lies in the input and the spec parser reads the resolved value at `start` (followed "
+              "only by whitespace inside the slice); otherwise an error with an empty target. GetEscaped's bit trick is a stated primitive "
+              "(validated by the run) unless C10_getEscaped is listed. ParseOnDemand = slice + Parse is compared by trees in the run.")
 LEVEL_NOTE = "Trusted: Lean kernel; standard axioms; compiled Lean evaluation of the spec; harness."
 TECHNIQUE = "Lean 4 executable spec as oracle + component theorems; differential correspondence"
 
